@@ -5,6 +5,7 @@ pub mod c05;
 pub mod c07;
 pub mod c17;
 pub mod c08;
+pub mod c09;
 
 use crate::run::Config;
 
@@ -16,6 +17,7 @@ pub fn dispatch(cfg: &Config) -> i32 {
         "C07" => c07::run(cfg),
         "C17" => c17::run(cfg),
         "C08" => c08::run(cfg),
+        "C09" => c09::run(cfg),
         other => {
             eprintln!("[avm] no monitor for property {other}");
             2
